@@ -17,8 +17,14 @@ package config
 //@   trusted library contract: the join of a list is nil iff every element is nil
 //@   ensures nil_iff_all_nil: (err == nil) <==> (forall j int :: 0 <= j && j < len(errs) ==> errs[j] == nil)
 
+// SpecErrIs is errors.Is (abstract).
+func SpecErrIs(err error, target error) bool { panic("abstract spec function") }
+
+//@ spec SpecErrIs abstract
+
 //@ func errors.Is(err, target) (r)
 //@   trusted library contract (pure): a nil error matches nothing but nil
+//@   ensures def: r == SpecErrIs(err, target)
 //@   ensures nil_err: err == nil && target != nil ==> !r
 //@   ensures same_error_matches: err == target ==> r
 
